@@ -72,6 +72,9 @@ both('attached_let', ['relation foo(i32, i32)', 'relation bar(i32, i32)', 'relat
 P('attached_let_run', ['relation foo(i32, i32)', 'relation bar(i32, i32)', 'relation res(i32, i32)'],
   ['foo(*a, *b) <-- for (a, b) in input.iter()', 'res(x, y) <-- foo(x, a) let k = a + 1, bar(k, y)'],
   macro='ascent_run', params='input: &[(i32, i32)], k: i32', tags=['conds', 'run'])
+both('pat_same_clause', ['relation foo(Option<i32>, i32)', 'relation bar(i32, Option<i32>, i32)', 'relation out(i32)', 'relation out3(i32, i32)'],
+     ['out(*y) <-- foo(?Some(y), y + 1)', 'out(*y) <-- foo(?Some(y), y)', 'out3(x, *y) <-- bar(x, ?Some(y), x + y)', 'out3(x, *y) <-- bar(x, ?Some(y), y), foo(?Some(z), x) if z > y'],
+     tags=['patarg', 'repeated'])
 both('at_pat', ['relation item(Option<i32>)', 'relation val(i32, i32)', 'relation hit(Option<i32>, i32)', 'relation o(Option<i32>, i32)'],
      ['hit(whole.clone(), z) <-- item(?whole @ Some(y)), val(y, z)', 'hit(w.clone(), z) <-- o(w, x), if let all @ Some(y) = w, val(y, z), if all.is_some()'],
      tags=['patarg', 'conds'])
